@@ -7,10 +7,9 @@ Each is realised in bytes by the reference accessory (ref/accessory.py: SRP serv
 driving the REAL generators, interpreted symbolically by the extracted model (build/drv_c03) against
 the Coq specification accessory, and judged by the bytes-only oracle ref.accessory.oracle_setup.
 
-3072-bit SRP makes one exchange cost ~50 ms, so one exchange is shared by many mutations of the same
-message: the parent process runs the real generator up to the point where M4 (resp. M6) is due and
-forks one child per mutation (the suspended generator is copied by fork), which is sound because
-nothing before that point depends on the mutation.
+3072-bit SRP makes one exchange cost ~50 ms, so the SRP work of one exchange is shared by the many
+mutations of its M4 / M6: the built-in pow is memoised (a pure function; seam = module-level name `pow`
+in aiohomekit.crypto.srp), which is sound because those runs have the same code, salt, a and B.
 """
 from __future__ import annotations
 
@@ -119,7 +118,7 @@ def new_state(s: Scn) -> State:
 
 def deliver(st: State, gen, which, ops, out, expected):
     """mutate the accessory's reply, run it through the transport's decoder, hand it to the generator"""
-    raw_b, sym = realise(ops, out, st.ctx)
+    raw_b, sym = realise(ops, out, st.ctx, None if st.transport == "ble" else [int(x) for x in expected])
     st.bytes[which] = raw_b
     if sym is None:
         st.not_tlv = st.not_tlv or which
@@ -246,7 +245,7 @@ def summarise(s: Scn, st: State) -> dict:
     just = why = None
     if st.A is not None:
         a_int = srp_a_value()
-        if pow(R.SRP_G, a_int, R.SRP_N).to_bytes(384, "big") == bytes(st.A):
+        if R._powm(R.SRP_G, a_int, R.SRP_N).to_bytes(384, "big") == bytes(st.A):
             just, why = R.oracle_setup(st.bytes["m2"], st.bytes["m4"], st.bytes["m6"], s.transport, st.code, a_int, bytes(st.A))
             out["oracle"] = "client-view"
         else:
@@ -260,88 +259,37 @@ def summarise(s: Scn, st: State) -> dict:
     return out
 
 
-# ---- fork fan-out -----------------------------------------------------------
+# ---- execution ----------------------------------------------------------------
 _FAN = {}
+_POW_CACHE = {}
 
 
-def _child(i):
-    st, scns, stage = _FAN["st"], _FAN["scns"], _FAN["stage"]
-    s = scns[i]
+def _cached_pow(base, exp, mod=None):
+    """pure memoisation of the built-in pow for the 3072-bit SRP exponentiations: mutations of M4 / M6
+    share (code, salt, a, B) with their base exchange, so only the first run of a group pays for SRP"""
+    if mod is None:
+        return pow(base, exp)
+    k = (base, exp, mod)
+    r = _POW_CACHE.get(k)
+    if r is None:
+        r = _POW_CACHE[k] = pow(base, exp, mod)
+    return r
+
+
+@contextlib.contextmanager
+def shared_srp_work():
+    """seam: a module-level name `pow` in aiohomekit.crypto.srp shadows the built-in with the memoised one"""
+    import aiohomekit.crypto.srp as srp_mod
+    had = "pow" in srp_mod.__dict__
+    old = srp_mod.__dict__.get("pow")
+    srp_mod.pow = _cached_pow
     try:
-        if stage == "m4":
-            if step_to_m6(st, s.m4):
-                step_finish(st, s.m6)
+        yield
+    finally:
+        if had:
+            srp_mod.pow = old
         else:
-            step_finish(st, s.m6)
-        return summarise(s, st)
-    except Exception as e:  # noqa: BLE001
-        import traceback
-        return dict(harness_error=f"{s.ident()}: {type(e).__name__}: {e}\n{traceback.format_exc()[-800:]}")
-
-
-def _read_all(fd):
-    chunks = []
-    while True:
-        b = os.read(fd, 1 << 16)
-        if not b:
-            break
-        chunks.append(b)
-    os.close(fd)
-    return b"".join(chunks)
-
-
-def _write_all(fd, data):
-    mv = memoryview(data)
-    while mv:
-        n = os.write(fd, mv)
-        mv = mv[n:]
-    os.close(fd)
-
-
-def fan_out(st, scns, stage, workers):
-    """One forked grandchild per scenario: every grandchild inherits the generator suspended at the
-    point where the mutated message is due.  Worker processes fork the grandchildren sequentially."""
-    import pickle
-    if not scns:
-        return []
-    _FAN.update(st=st, scns=scns, stage=stage)
-    n = len(scns)
-    workers = max(1, min(workers, n))
-    procs = []
-    for w in range(workers):
-        rfd, wfd = os.pipe()
-        pid = os.fork()
-        if pid == 0:
-            os.close(rfd)
-            out = []
-            try:
-                for i in range(w, n, workers):
-                    r2, w2 = os.pipe()
-                    p2 = os.fork()
-                    if p2 == 0:
-                        os.close(r2)
-                        try:
-                            _write_all(w2, pickle.dumps(_child(i)))
-                        finally:
-                            os._exit(0)
-                    os.close(w2)
-                    data = _read_all(r2)
-                    os.waitpid(p2, 0)
-                    out.append((i, pickle.loads(data) if data else dict(harness_error=f"child for {scns[i].ident()} died")))
-                _write_all(wfd, pickle.dumps(out))
-            finally:
-                os._exit(0)
-        os.close(wfd)
-        procs.append((pid, rfd))
-    res = [None] * n
-    for pid, rfd in procs:
-        data = _read_all(rfd)
-        os.waitpid(pid, 0)
-        if not data:
-            raise HarnessError("fan-out worker died")
-        for i, r in pickle.loads(data):
-            res[i] = r
-    return res
+            del srp_mod.pow
 
 
 def _whole(i):
@@ -356,36 +304,31 @@ def _whole(i):
         return dict(harness_error=f"{s.ident()}: {type(e).__name__}: {e}\n{traceback.format_exc()[-800:]}")
 
 
+def _chunk(idx):
+    with shared_srp_work():
+        return [(i, _whole(i)) for i in idx]
+
+
 def run_all(scns, workers):
-    """group scenarios by exchange prefix; share the SRP work of a group through fork"""
-    results = {}
+    """scenarios sharing an exchange prefix go to the same worker process (memoised SRP work)"""
     groups = {}
-    whole = []
     for i, s in enumerate(scns):
-        if s.stage() in ("m2", "none"):
-            whole.append(i)
+        groups.setdefault(s.base_key() if s.stage() != "m2" else ("m2", i % workers), []).append(i)
+    chunks = [[] for _ in range(workers)]
+    for g in sorted(groups.values(), key=len, reverse=True):
+        # split big groups so that every worker gets a share (each pays the SRP of the group once)
+        if len(g) > 4 * workers:
+            for w in range(workers):
+                chunks[w] += g[w::workers]
         else:
-            groups.setdefault((s.base_key(), s.stage()), []).append(i)
-    if whole:
-        _FAN.update(scns=[scns[i] for i in whole])
-        ctx = multiprocessing.get_context("fork")
-        with ctx.Pool(processes=workers) as pool:
-            for i, r in zip(whole, pool.map(_whole, range(len(whole)), chunksize=4)):
+            min(chunks, key=len).extend(g)
+    _FAN.update(scns=scns)
+    results = {}
+    ctx = multiprocessing.get_context("fork")
+    with ctx.Pool(processes=workers) as pool:
+        for part in pool.map(_chunk, [c for c in chunks if c], chunksize=1):
+            for i, r in part:
                 results[i] = r
-    for (bk, stage), idx in groups.items():
-        s0 = scns[idx[0]]
-        st = new_state(s0)
-        if not step_to_m4(st, []):
-            raise HarnessError(f"base exchange failed before M4: {st.exc}")
-        if stage == "m6":
-            if not step_to_m6(st, []):
-                # e.g. a wrong-code accessory never reaches M6: run such scenarios whole
-                _FAN.update(scns=[scns[i] for i in idx])
-                for i, r in zip(idx, map(_whole, range(len(idx)))):
-                    results[i] = r
-                continue
-        for i, r in zip(idx, fan_out(st, [scns[i] for i in idx], stage, workers)):
-            results[i] = r
     return [results[i] for i in range(len(scns))]
 
 
@@ -698,8 +641,8 @@ def run(ctx):
     cov.extra["disagreements_checked"] = n_model
     cov.extra["model_cases"] = n_model
     cov.extra["expectation_lists_yielded"] = sorted(exp_lists)
-    cov.extra["full_srp_exchanges"] = sum(1 for s in scns if s.stage() in ("m2", "none")) + \
-        len({(s.base_key(), s.stage()) for s in scns if s.stage() in ("m4", "m6")})
+    cov.extra["distinct_srp_inputs"] = len({(s.base_key()) for s in scns if s.stage() != "m2"}) + \
+        sum(1 for s in scns if s.stage() == "m2")
     cov.extra["domain_exclusions"] = [
         "replies that are not TLV8 are rejected by the transport decoder before the generator; the model is not consulted",
         "setup codes and controller identifiers are text (the API takes str)",
@@ -708,7 +651,8 @@ def run(ctx):
         "symbolic<->concrete bridge: harness/ref/accessory.py dual values + atom registry (DESIGN.md 3.2, Appendix B)",
         "reference accessory: SRP-6a server on Python ints with the RFC 3526/5054 3072-bit modulus derived from its pi "
         "formula and Miller-Rabin checked; cryptography (OpenSSL) ChaCha20-Poly1305/Ed25519; hmac/hashlib HKDF-SHA-512",
-        "fork-based sharing of one SRP exchange between mutations of the same later message",
+        "memoised built-in pow inside aiohomekit.crypto.srp (module-level name seam) and in the reference: mutations of "
+        "M4/M6 reuse the modular exponentiations of their base exchange; results are those of pow itself",
     ]
     return dict(coverage=cov.to_dict(), violations=viol)
 
